@@ -419,7 +419,10 @@ def native_cases(qual, rng):
         elif m == "_swap":
             rec.update(i=rng.randint(0, 8), j=rng.randint(0, 8))
         elif m == "push":
-            rec.update(item=rng.randint(0, 9), final_keys=[[rng.randint(0, 9), rng.randint(0, 11)] for _ in range(2)])
+            pushed = [o[1] for o in ops if o[0] == "push"]
+            item = rng.choice(pushed) if pushed and rng.random() < 0.75 else rng.randint(0, 9)
+            # re-push of an existing item after its key changed (up or down) is the interesting case
+            rec.update(item=item, final_keys=[[item, rng.randint(-1, 12)], [rng.randint(0, 9), rng.randint(0, 11)]])
         yield rec
 
 
